@@ -208,6 +208,25 @@ fn minimize(ast: &E, text: &[u8]) -> (E, String) {
     (best, kind)
 }
 
+/// Signature of a divergence. Root-cause grouping: when the divergence exists only because the input
+/// has duplicate keys and it is the library evaluator that departs from the collapsed (first
+/// position, last value) view, all builtins share one signature.
+fn classify(kind: &str, feats: &str, doc: &J, filter: &str, mf: &Outcome, mg: &Outcome) -> String {
+    if doc.has_dup_keys() {
+        let collapsed = gjson::to_compact(&jsonval::collapse_dups(doc));
+        if let Ok(Ok(e)) = catch(|| jq::parse(filter)) {
+            if let Ok((None, cf, _)) = compare(&e, collapsed.as_bytes()) {
+                if diff_kind(&cf, mg).is_none() {
+                    return "C23/dupkeys/full-evaluator-keeps-shadowed-duplicate".to_string();
+                } else if diff_kind(&cf, mf).is_none() {
+                    return format!("C23/dupkeys/generic-evaluator-departs/{}", feats);
+                }
+            }
+        }
+    }
+    format!("C23/{}/{}", kind, feats)
+}
+
 fn check_case(u: &mut Src, st: &mut Stats, cfg: &Cfg) -> Result<(), Fail> {
     let doc = gen_doc(u);
     let prog = jqprog::gen_program(u, &doc, cfg);
@@ -237,6 +256,12 @@ fn check_case(u: &mut Src, st: &mut Stats, cfg: &Cfg) -> Result<(), Fail> {
         Ok(x) => x,
         Err((loc, msg, which)) => {
             st.class("panic-deferred-to-C30");
+            if let Ok(path) = std::env::var("VH_C23_COLLECT") {
+                use std::io::Write;
+                if let Ok(mut fh) = std::fs::OpenOptions::new().create(true).append(true).open(path) {
+                    let _ = writeln!(fh, "PANIC/{}/{}\t{}", which, msg, json!({"filter": prog.text, "input": String::from_utf8_lossy(&text), "loc": loc}));
+                }
+            }
             st.sample("panic", || json!({"filter": prog.text, "input": String::from_utf8_lossy(&text), "which": which, "loc": loc, "msg": msg}));
             return Ok(());
         }
@@ -264,21 +289,10 @@ fn check_case(u: &mut Src, st: &mut Stats, cfg: &Cfg) -> Result<(), Fail> {
         },
         _ => (f.clone(), g.clone()),
     };
-    let mut sig = format!("C23/{}/{}", kind, sig_features(&min_ast));
-    // Root-cause grouping: the divergence exists only because the input has duplicate keys, and it
-    // is the library evaluator that departs from the collapsed (first position, last value) view.
-    if doc.has_dup_keys() {
-        let collapsed = gjson::to_compact(&jsonval::collapse_dups(&doc));
-        if let Ok(Ok(e)) = catch(|| jq::parse(&min_text)) {
-            if let Ok((None, cf, _)) = compare(&e, collapsed.as_bytes()) {
-                if diff_kind(&cf, &mg).is_none() {
-                    st.class(&format!("dupkeys-finding:{}", sig_features(&min_ast)));
-                    sig = "C23/dupkeys/full-evaluator-keeps-shadowed-duplicate".to_string();
-                } else if diff_kind(&cf, &mf).is_none() {
-                    sig = format!("C23/dupkeys/generic-evaluator-departs/{}", sig_features(&min_ast));
-                }
-            }
-        }
+    let feats = sig_features(&min_ast);
+    let sig = classify(&kind, &feats, &doc, &min_text, &mf, &mg);
+    if sig.starts_with("C23/dupkeys/full") {
+        st.class(&format!("dupkeys-finding:{}", feats));
     }
     let detail = json!({
         "filter": min_text, "input": String::from_utf8_lossy(&text), "full": mf.to_value(), "generic": mg.to_value(),
@@ -307,7 +321,7 @@ fn replay_input(v: &Value) -> Option<Fail> {
     };
     match compare(&expr, input.as_bytes()) {
         Ok((None, _, _)) => None,
-        Ok((Some(k), f, g)) => Some(Fail::new(format!("C23/{}/{}", k, feats), json!({"filter": filter, "input": input, "full": f.to_value(), "generic": g.to_value()}))),
+        Ok((Some(k), f, g)) => Some(Fail::new(classify(&k, feats, &jsonval::parse_one(input.as_bytes()).unwrap_or(J::Null), filter, &f, &g), json!({"filter": filter, "input": input, "full": f.to_value(), "generic": g.to_value()}))),
         Err((loc, msg, which)) => Some(Fail::new(format!("C23/replay/panic-{}@{}", which, panic_sig(&loc)), json!({"filter": filter, "panic": msg}))),
     }
 }
